@@ -12,16 +12,20 @@ import core_lib as cl
 import c18 as trig
 
 PROPERTY = "C05"
-LEAN_MODULES = ["Proofs.C05"]
+LEAN_MODULES = ["Proofs.C05", "Proofs.C05.Refresh"]
 DRIVERS = ["driver_core"]
-RULE = ("random runs: 1..3 markets (minutely, hourly, with gaps, starting late / ending early), bar interval 1/2/3/5/7/15/45/60 min (string forms "
+RULE = ("random runs: 1..3 markets (minutely, hourly, hourly option book with 2..80 rows per timestamp — sometimes more rows than the longest market has "
+        "minutes —, with gaps, starting late / ending early), bar interval 1/2/3/5/7/15/45/60 min (string forms "
         "'1min', 'min', '5min', '1h', 'h'), 1..400 bars, price frame covering / not covering the data, 0..3 time triggers, scripted strategy "
-        "issuing accepted and refused operations from initialize / before_bar / trigger actions / open callbacks / on_bar / after_bar and markets "
-        "whose update() records actions; bucket = (interval class, market mix, bars class, phases with operations, second refresh seen, "
+        "issuing accepted and refused operations from initialize / before_bar / trigger actions / open callbacks / on_bar / after_bar and from "
+        "inside notify() (answers to delivered actions, up to three levels deep, also on the last bar) and markets whose update() records actions; "
+        "fixed cases: minutely market + 2 h x 80-row book, 2-3 markets with a write only on a later-registered one, answers from notify(); bucket = (interval class, market mix, bars class, phases with operations, second refresh seen, "
         "closed-market rejection seen, outcome)")
 TRUSTED = ["pandas resample/loc internals are exercised, not modelled: the model's resampled index and 'first row of the bin' rule are compared with what pandas produced on every run",
            "the concrete markets' own set_market_status/update bodies are the subject of other properties; here they are abstract (ProbeMarket in harness/core_lib.py)"]
-ASSUMPTIONS = ["hooks do not raise (the scripted strategy catches the exception of a refused operation), do not issue operations from notify(), and do not replace strategy.triggers"]
+ASSUMPTIONS = ["hooks do not raise (the scripted strategy catches the exception of a refused operation) and do not replace strategy.triggers",
+               "a notify() hook that answers every delivery with a new accepted operation never returns (the code iterates the live list): generated scripts answer at most three levels deep",
+               "frames have a non-decreasing time index (several rows per timestamp allowed: an option book)"]
 
 INTERVALS = ((1, "1min"), (1, "1min"), (1, "min"), (5, "5min"), (5, "5min"), (15, "15min"), (60, "1h"), (60, "h"), (60, "60min"),
              (2, "2min"), (3, "3min"), (7, "7min"), (45, "45min"), (30, "30min"))
@@ -54,7 +58,11 @@ def gen_case(rng, big=False):
         else:
             k = rng.randint(1, len(base))
             times = base[:k]
-        markets.append({"kind": kind, "times": times, "open": rng.random() < 0.4})
+        mk = {"kind": kind, "times": times, "open": rng.random() < 0.4}
+        if kind == "hourly" and rng.random() < 0.5:
+            # an option book: several rows per timestamp; sometimes more rows than the longest market has timestamps
+            mk["kind"], mk["rows"] = "book", rng.choice((2, 3, 7, max(2, n_raw // max(1, len(times)) + 1), 80))
+        markets.append(mk)
     if istr == "1min" and rng.random() < 0.35:       # a real UniLpMarket in the mix
         cand = markets + [{"kind": "uni", "times": list(base), "open": rng.random() < 0.3}]
         longest = max(cand, key=lambda m: len(m["times"]))
@@ -88,26 +96,42 @@ def gen_case(rng, big=False):
         return out
     rows = max(1, n_raw // interval + 2)
     dens = rng.choice((0.0, 0.1, 0.3, 0.7))
-    sc = {"init": ops() if rng.random() < 0.3 else [], "before": [], "fire": [], "open": [], "on": [], "after": [], "upd": []}
+    sc = {"init": ops() if rng.random() < 0.3 else [], "before": [], "fire": [], "open": [], "on": [], "after": [], "upd": [], "notify": [],
+          "fuel": 100000}
+    pn = rng.choice((0.0, 0.0, 0.15, 0.4))        # how often the strategy answers a delivered action with operations of its own
+
+    def answers(r_, tags, depth=0):
+        """Strategy.notify acts on what it is told: operations issued from inside the hook (and answers to their deliveries, two levels deep)"""
+        for tag in tags:
+            if rng.random() < pn and depth < 3:
+                o = ops(2)
+                if o:
+                    sc["notify"].append([r_, tag, o])
+                    answers(r_, [x[2] for x in o], depth + 1)
+    answers(0, [x[2] for x in sc["init"]])
     for r_ in range(rows):
         for key in ("before", "on", "after"):
             if rng.random() < dens:
                 o = ops()
                 if o:
                     sc[key].append([r_, o])
+                    answers(r_, [x[2] for x in o])
         for i in range(len(specs)):
             if rng.random() < dens:
                 o = ops()
                 if o:
                     sc["fire"].append([r_, i, o])
+                    answers(r_, [x[2] for x in o])
         for m in range(nm):
             if markets[m]["open"] and rng.random() < dens:
                 o = ops()
                 if o:
                     sc["open"].append([r_, m, o])
+                    answers(r_, [x[2] for x in o])
             if markets[m]["kind"] != "uni" and rng.random() < dens / 3:
                 cnt[0] += 1
                 sc["upd"].append([r_, m, [f"u{cnt[0]}"] + ([f"u{cnt[0]}b"] if rng.random() < 0.3 else [])])
+                answers(r_, sc["upd"][-1][2])
     return {"interval": interval, "istr": istr, "markets": markets, "prices": prices, "specs": specs, "script": sc}
 
 
@@ -118,13 +142,14 @@ def run_impl(case):
     from demeter._typing import DemeterError
     rec = cl.Recorder()
     rec.initialized = False
-    a, ms, rec = cl.build([(f"m{i}", m["times"], m["open"], m["kind"]) for i, m in enumerate(case["markets"])], case["prices"], case["istr"], rec)
+    a, ms, rec = cl.build([(f"m{i}", m["times"], m["open"], m["kind"], m.get("rows", 1)) for i, m in enumerate(case["markets"])], case["prices"], case["istr"], rec)
     sc = case["script"]
     t_before = {r: o for r, o in sc["before"]}
     t_on = {r: o for r, o in sc["on"]}
     t_after = {r: o for r, o in sc["after"]}
     t_fire = {(r, i): o for r, i, o in sc["fire"]}
     t_open = {(r, m): o for r, m, o in sc["open"]}
+    t_notify = {(r, tag): o for r, tag, o in sc.get("notify", [])}
     ev = rec.ev
     state = {"row": 0}
 
@@ -186,6 +211,7 @@ def run_impl(case):
         def before_bar(self, snap):
             for m, tags in upd_by_row.get(snap.row_id, []):
                 ms[m].update_script[cl.sec(snap.timestamp)] = tags
+            state["row"] = snap.row_id
             ev(["before", cl.sec(snap.timestamp), snap.row_id, psrc(snap)])
             do_ops("before", t_before.get(snap.row_id, []))
 
@@ -199,6 +225,7 @@ def run_impl(case):
 
         def notify(self, action):
             ev(["notify", now(), action.comment, cl.sec(action.timestamp), [m.market_info for m in ms].index(action.market)])
+            do_ops("notify", t_notify.get((state["row"], action.comment), []))
 
         def finalize(self):
             ev(["finalize", now()])
@@ -233,7 +260,7 @@ def run_impl(case):
 
 
 # ------------------------------------------------------------------------------------------ the property, stated on the observed trace
-PHASE_OF_HOOK = {"init": 2, "before": 5, "fire": 6, "open": 7, "on": 9, "after": 13}
+PHASE_OF_HOOK = {"init": 2, "before": 5, "fire": 6, "open": 7, "on": 9, "after": 13, "notify": 15}
 
 
 def phase(e):
@@ -283,7 +310,8 @@ def oracle(ctx, case, obs, rep):
     for name in ("before", "on", "after", "row"):
         got = [e[1] for e in ev if e[0] == name]
         if got != bars:
-            V(f"Actuator.run:{name}-not-once-per-bar", f"{name} timestamps {got[:6]}… differ from the bar index {bars[:6]}… ({len(got)} vs {len(bars)})")
+            V(f"Actuator.run:{name}-not-once-per-bar", f"{name} timestamps {got[:6]}… differ from the bar index {bars[:6]}… ({len(got)} vs {len(bars)}; markets "
+              f"{[(m['kind'], len(m['times']), m.get('rows', 1)) for m in case['markets']]}: the index is that of the market with the most distinct timestamps)")
             return
     if [e[2] for e in ev if e[0] == "before"] != list(range(len(bars))):
         V("Actuator.run:row_id", "row ids are not 0..n-1")
@@ -304,8 +332,14 @@ def oracle(ctx, case, obs, rep):
         if e[0] == "ok" and phase(e) <= 9 and phase(e) >= 5:
             upd.setdefault(e[1], set()).add(e[3])
     want2 = [(t, m) for t in bars for m in range(nm) if m in upd.get(t, ())]
-    if [(e[1], e[2]) for e in ev if e[0] == "set" and e[3] == 2] != want2:
-        V("Actuator.run:second-refresh", "the second status refresh does not touch exactly the markets with has_update")
+    got2 = [(e[1], e[2]) for e in ev if e[0] == "set" and e[3] == 2]
+    if got2 != want2:
+        miss = [x for x in want2 if x not in got2]
+        extra = [x for x in got2 if x not in want2]
+        V("Actuator.run:second-refresh" + (":written-market-not-refreshed" if miss else ":unwritten-market-refreshed"),
+          f"before the market update of a bar the status of exactly the markets written to in that bar is refreshed again; {nm} markets, "
+          f"not refreshed although written to (bar, market): {miss[:4]}, refreshed although not written to: {extra[:4]} — the update then runs on a status "
+          f"that does not contain the strategy's own write")
     # every accepted operation / update record yields one action stamped with its bar, delivered exactly once at the end of that bar
     recorded = []
     for e in ev:
@@ -315,9 +349,13 @@ def oracle(ctx, case, obs, rep):
             recorded.append([e[3], e[1], e[2]])
     notified = [[e[2], e[3], e[4]] for e in ev if e[0] == "notify"]
     if notified != recorded:
-        V("Actuator.notify:not-exactly-once", f"notified actions {notified[:5]}… differ from recorded ones {recorded[:5]}…")
-    if any(e[1] != e[3] for e in ev if e[0] == "notify"):
-        V("Actuator.notify:late", "an action was notified in a bar other than the one it is stamped with")
+        lost = [x for x in recorded if x not in notified]
+        V("Actuator.notify:not-exactly-once", f"notified actions {notified[:5]}… differ from recorded ones {recorded[:5]}… (never delivered: {lost[:4]})")
+    late = [e for e in ev if e[0] == "notify" and e[1] != e[3]]
+    if late:
+        src = [x for x in ev if x[0] in ("ok", "free") and x[4] == late[0][2]]
+        V("Actuator.notify:late", f"the action {late[0][2]} stamped {late[0][3]} (issued from {src[0][2] if src else 'update()'}) was delivered to notify() in the bar "
+                                  f"at {late[0][1]}, not at the end of the bar in which it ran")
     if obs["actions"] != recorded:
         V("Actuator.actions:mismatch", "Actuator.actions differs from the operations accepted during the run")
     # one account row per bar with its timestamp and prices
@@ -351,7 +389,8 @@ def model_request(case):
         return [str(x) for x in l]
     specs = [{k: ([[str(a), str(b)] for a, b in v] if k == "rs" else [str(x) for x in v] if isinstance(v, list)
                   else str(v) if isinstance(v, int) and not isinstance(v, bool) else v) for k, v in sp.items()} for sp in case["specs"]]
-    return {"fn": "run", "markets": [{"idx": ints(m["times"]), "open": m["open"]} for m in case["markets"]], "prices": ints(case["prices"]),
+    return {"fn": "run", "markets": [{"idx": ints([t for t in m["times"] for _ in range(m.get("rows", 1))]), "open": m["open"]} for m in case["markets"]],
+            "prices": ints(case["prices"]),
             "delta": str(60 * case["interval"]), "resample": resampled(case["istr"]), "specs": specs, "script": case["script"]}
 
 
@@ -450,11 +489,39 @@ def cl_repo():
     return common.REPO
 
 
+def fixed_cases():
+    """configurations every run starts with (the random stream reaches them too, these make the check independent of the seed)"""
+    base = [7200 + 60 * i for i in range(120)]
+    empty = {"init": [], "before": [], "fire": [], "open": [], "on": [], "after": [], "upd": [], "notify": [], "fuel": 100000}
+    out = []
+    # a minutely market and an hourly option book with more rows (2 hours x 80 instruments) than the minutely market has minutes
+    for order in (0, 1):
+        ms = [{"kind": "minutely", "times": base, "open": False}, {"kind": "book", "times": [7200, 10800], "open": True, "rows": 80}]
+        out.append({"interval": 1, "istr": "1min", "markets": ms[::-1] if order else ms, "prices": base, "specs": [],
+                    "script": dict(empty, on=[[0, [[1 - order, True, "t1", True]]], [61, [[order, True, "t2", True]]]])})
+    # several markets, only a later-registered one is written to in on_bar / before_bar: the refresh after on_bar must reach it
+    short = base[:6]
+    for nm, target in ((2, 1), (3, 2), (3, 1)):
+        ms = [{"kind": "minutely", "times": short, "open": False} for _ in range(nm)]
+        out.append({"interval": 1, "istr": "1min", "markets": ms, "prices": short, "specs": [],
+                    "script": dict(empty, on=[[1, [[target, True, "t1", True]]], [3, [[target, True, "t2", True], [0, True, "t3", False]]]],
+                                   before=[[4, [[target, True, "t4", True]]]])})
+    # the strategy answers a delivered action from inside notify(): in the middle of the run, on the last bar, twice in a row
+    ms = [{"kind": "minutely", "times": short, "open": False}, {"kind": "minutely", "times": short, "open": False}]
+    out.append({"interval": 1, "istr": "1min", "markets": ms, "prices": short, "specs": [],
+                "script": dict(empty, on=[[2, [[0, True, "t1", True]]], [5, [[1, True, "t4", False]]]], upd=[[3, 1, ["u1"]]],
+                               notify=[[2, "t1", [[1, True, "t2", True], [0, False, "t2x", True]]], [2, "t2", [[0, True, "t3", False]]],
+                                       [5, "t4", [[0, True, "t5", True]]], [3, "u1", [[1, True, "t6", True]]]])})
+    return out
+
+
 def run(ctx: Ctx):
     cl.setup()
     real_market_resample(ctx)
     n = ctx.scale(260, 6000)
     reqs = []
+    for case in fixed_cases():
+        check_case(ctx, case, reqs)
     for i in range(n):
         check_case(ctx, gen_case(ctx.rng, big=(i % 10 == 0)), reqs)
     ctx.impl_traces = len(reqs)
